@@ -181,6 +181,8 @@ def generate(repo, root, use_pinned_for=(), pin=False):
     forced = {n: True for n, (ty, _) in pinned.items() if ty.startswith("res ")}
     tr = Translator(files, ovf=ovf, dbg=dbg, forced_res=forced,
                     tables={"COMMON_INPUTS": ("src_COMMON_INPUTS", 256), "COMMON_INPUTS_INV": ("src_COMMON_INPUTS_INV", 256)})
+    for coqname, f, owner, fn, mode, pdecl, opt, rdecl in TARGETS:
+        tr.reserved[coqname] = (owner, fn) if (mode == ("fn",) and pdecl is None) else ("%derived", coqname)
     texts, types, status = {}, {}, {}
     for coqname, f, owner, fn, mode, pdecl, opt, rdecl in TARGETS:
         if coqname in use_pinned_for:
